@@ -115,6 +115,10 @@ func (td TypeDeclaration) objectCompletionAtPos(ctx context.Context, funcExpr *h
 	if !funcExpr.Args[0].Range().ContainsPos(pos) {
 		return []lang.Candidate{}
 	}
+	if pos.Byte < objExpr.OpenRange.End.Byte {
+		// in front of the opening brace
+		return []lang.Candidate{}
+	}
 
 	editRange := hcl.Range{
 		Filename: objExpr.Range().Filename,
